@@ -427,6 +427,9 @@ class Ref:
                 self.emit("ev", f"{s[2]}={v}")
             elif op == "terminate":
                 yield ("endscn",)
+                # a behavior whose `terminate` ended only the (sub-)scenario that created
+                # its agent is resumed at the next step like after any other yield
+                self.check_inv(inst)
             elif op == "terminatesim":
                 yield ("endsim",)
             elif op == "require":
